@@ -95,18 +95,33 @@ def gauges(rec):
     return None if g is None else (g["after"], g["pool_after"])
 
 
+RUNAWAY = [
+    "local sum(xs) = std.foldl(function(a, b) a + b, xs, 0); local stage(i) = { assert i >= 0 : 'neg', cost: sum([i, stage(i + 1).cost]) }; stage(0).cost",
+    "local stage(i) = { assert i >= 0, assert self.cost > 0, cost: i + stage(i + 1).cost }; stage(0).cost",
+    "local stage(i) = { local nxt = stage(i + 1), assert i >= 0, cost: [i, nxt.cost][1] + 1 }; stage(0).cost",
+    "local stage(i) = { assert i >= 0, cost: 1 } + { cost+: stage(i + 1).cost, assert super.cost == 1 }; stage(0).cost",
+    "local f(n) = std.map(function(x) f(x + 1)[0] + 1, [n]); f(0)[0]",
+    "local f(n) = { a: [f(n + 1).a[0] + 1] }; f(0).a[0]",
+    "local f(n) = std.objectValues({ assert n >= 0, v: f(n + 1)[0] })[0] + 1; [f(0)]",
+    "local o = { assert self.a == 1, a: $.b, b: $.c, c: $.a }; o.a",
+    "local f(n) = { assert std.length(self.k) >= 0, k: std.join(',', [std.toString(n), f(n + 1).k]) }; f(0).k",
+    "local f(n) = std.mergePatch({ assert true, a: n }, { a: f(n + 1).a }); f(0).a",
+]
+
+
 class Collector:
     def __init__(self, acc, binary, cwd=None):
         self.acc = acc
         self.bin = binary
         self.cwd = cwd
         self.w = runner.Worker(binary, timeout=30, cwd=cwd)
+        self.max_stack = 120
 
     def close(self):
         self.w.close()
 
     def job(self, code, state_id=None, gc=True, file=None):
-        j = {"op": "eval", "gc": gc, "max_stack": 120, "ext": [["v", "str", "ext-value"]]}
+        j = {"op": "eval", "gc": gc, "max_stack": self.max_stack, "ext": [["v", "str", "ext-value"]]}
         if file:
             j["file"] = file
         else:
@@ -155,6 +170,16 @@ class Collector:
         self.acc.inc("outcome_" + kinds[0])
         self.acc.add("classes", cls_name)
         self.acc.distinct(code or file)
+
+    def limit_sweep(self, cls_name, code, limits):
+        """runaway recursion cut off at every frame limit of a range: whichever guarded region (field read, assertion run,
+        array element, call) happens to take the last free frame, nothing it registered may stay behind"""
+        for lim in limits:
+            self.max_stack = lim
+            try:
+                self.repeat("%s@limit" % cls_name, code + " /* limit %d */" % lim)
+            finally:
+                self.max_stack = 120
 
     def batch(self, codes, label):
         """a long-lived state evaluating a batch, then dropped: twice; second total must equal the first"""
@@ -206,6 +231,12 @@ def shard(idx, n, tier, seed, binary):
         for i, code in enumerate(CYCLIC):
             if i % n == idx:
                 col.repeat("cyclic", code)
+        # runaway recursions through every kind of guarded region, cut off at each frame limit of a range
+        for i, code in enumerate(RUNAWAY):
+            lims = list(range(24, 64)) if tier == "thorough" else list(range(30, 46))
+            for lim in lims:
+                if (i * 97 + lim) % n == idx:
+                    col.limit_sweep("runaway", code, [lim])
         # sharing shapes of C03 and object chains of C02 (instrumented and plain)
         shapes = c03.sharing_shapes()
         for i, (label, ast) in enumerate(shapes):
